@@ -188,7 +188,18 @@ func (r *RProgram) Encode(m *Message) *Encoding { return r.EncodeWithout(m, nil)
 
 // EncodeWithout is the reference encoder at a moment when the algorithm names in off are not registered.
 func (r *RProgram) EncodeWithout(m *Message, off map[string]bool) *Encoding {
-	e := &encoder{r: r, off: off}
+	return r.encode(m, off, nil)
+}
+
+// EncodeAfter is the reference encoder writing into an output buffer that already holds pre: the result is pre
+// followed by the message, span offsets are absolute, and a checksum covers every byte before its field in the
+// buffer (pre included) - "the bytes that precede it in the output buffer".
+func (r *RProgram) EncodeAfter(pre []byte, m *Message) *Encoding {
+	return r.encode(m, nil, pre)
+}
+
+func (r *RProgram) encode(m *Message, off map[string]bool, pre []byte) *Encoding {
+	e := &encoder{r: r, off: off, buf: append([]byte(nil), pre...)}
 	pk := r.Packets[m.Packet]
 	if pk == nil {
 		return &Encoding{Err: "no packet " + m.Packet}
